@@ -59,7 +59,7 @@ def _result(fn, contains):
 
 def check(ctx, rep):
     from . import c10 as _c10, _share as _sh
-    _sh.share(ctx, rep, _c10, ('roots.registration-released-on-every-exit', 'roots.argument-read-after-collection'),
+    _sh.share(ctx, rep, _c10, ('roots.registration-released-on-every-exit', 'roots.argument-read-after-collection', 'roots.justified-copy-stored-back'),
               'a string function or MID$ statement has no effect beyond its result: its argument is a collector root exactly while the function runs')
     # LEFT$, RIGHT$
     for name, sl in (('left_', 's.to_str()[:stop]'), ('right_', 's.to_str()[-stop:]')):
